@@ -112,7 +112,7 @@ def mem_a64(base, off=None, index=None, shift=None, pre=False, post=None):
     if index:
         text += ", " + index[0] + index[1]
         if shift:
-            text += f", {shift[0]} #{shift[1]}"
+            text += f", {shift[0]} #{shift[1]}" if shift[1] is not None else f", {shift[0]}"
     text += "]"
     if pre:
         text += "!"
@@ -125,7 +125,7 @@ def mem_a64(base, off=None, index=None, shift=None, pre=False, post=None):
         okb = isinstance(o.base, RegisterOperand) and o.base.prefix == base[0] and o.base.name == base[1]
         oko = (o.offset is None) if off is None else (isinstance(o.offset, ImmediateOperand) and o.offset.value == off[1])
         oki = (o.index is None) if index is None else (isinstance(o.index, RegisterOperand) and o.index.prefix == index[0] and o.index.name == index[1])
-        want_scale = 2 ** shift[1] if shift else 1
+        want_scale = 2 ** shift[1] if shift and shift[1] is not None else 1
         okp = bool(o.pre_indexed) == pre and ((not o.post_indexed) if post is None else (isinstance(o.post_indexed, dict) and o.post_indexed.get("value") == post[1]))
         return okb and oko and oki and o.scale == want_scale and okp
 
@@ -154,6 +154,9 @@ def forms_a64():
         for index in (("x", "2"), ("w", "3")):
             mems.append(mem_a64(base, index=index))
             for shift in (("lsl", 0), ("lsl", 1), ("lsl", 2), ("lsl", 3), ("lsl", 4), ("sxtw", 2), ("uxtw", 3), ("sxtw", 0)):
+                mems.append(mem_a64(base, index=index, shift=shift))
+            # the extends of the index register's own width, with and without amount
+            for shift in ((("sxtx", 3), ("uxtx", 2), ("sxtx", None)) if index[0] == "x" else (("sxtw", None), ("uxtw", None))):
                 mems.append(mem_a64(base, index=index, shift=shift))
     return regs, imms, mems
 
